@@ -35,6 +35,10 @@ SPEC = dict(
           "its fragments AND a cut inside a frame header was executed; distinct by hash of the wire bytes. "
           "server_wire/client_wire: stream + segmentation + up to 6 application sends (text/binary/ping/close, lengths "
           "0..70001) interleaved, over a real connection; same non-trivial rule, distinct by hash(wire, plan). "
+          "client_reuse: ONE WebSocketClient object through 2-3 connections; each but the last carries a short valid exchange "
+          "and ends by {oversized header 1009, malformed header 1002, invalid UTF-8 1007, client sendClose, client "
+          "disconnect(), peer close, TCP reset idle, TCP reset inside a frame of a fragmented message}; the last carries the "
+          "client_wire exchange under the unchanged oracles; every case non-trivial, distinct by hash(endings, wire, plan). "
           "*_close_race: 1-4 threads x 5-150 sends against a close started by the application / the peer's close frame / an "
           "invalid text; every case is non-trivial, distinct by plan. hostile: parse headers, oversized declared frames, "
           "illegal control frames and MSB-set lengths followed by 70 KB of valid traffic, endless fragments, mutated streams; "
@@ -55,6 +59,7 @@ SPEC = dict(
             client_segments=P(200, 600, 4, 16),
             server_wire=P(200, 2000, 2, 8, **_LOOP),
             client_wire=P(100, 1500, 2, 8, **_LOOP),
+            client_reuse=P(100, 1000, 2, 8, **_LOOP),
             server_close_race=P(100, 1000, 1, 4, **_LOOP),
             client_close_race=P(100, 1000, 1, 4, **_LOOP),
             hostile=P(2000, 15000, 2, 8),
